@@ -37,7 +37,7 @@ From RU Require Import Base.Prelude Base.Utf8 Base.Utf8Facts Model.AsciiSet Gen.
   Proofs.C08_Input Proofs.C08_Simple Proofs.C08_Contain Proofs.C08_NoAuth Proofs.C08_Absolute Proofs.C08_Relative Proofs.C08_RelEval
   Proofs.C08_RelPath Proofs.C08_RelJoin Proofs.C08_RelMr Proofs.C08_RelLaw Proofs.C08_RelCanon Proofs.C08_RelNoAuth
   Proofs.C02_AuthParts Proofs.C02_Auth Proofs.C02_AuthSp Proofs.C02_AuthMain Proofs.C08_AbsNonfile Proofs.C08_RelAuth Proofs.C08_RelRecog Proofs.C08_Parsed Proofs.C08_ContainFile
-  Proofs.C02_Hist Proofs.C02_Canon Proofs.C02_SetHostCanon Proofs.C02_Reach5 Proofs.C09_Host Proofs.C02_Reach4 Model.Host Proofs.C08_Reach Proofs.C08_ContainFileFront.
+  Proofs.C02_Hist Proofs.C02_Canon Proofs.C02_SetHostCanon Proofs.C02_Reach5 Proofs.C09_Host Proofs.C02_Reach4 Model.Host Proofs.C08_Reach Proofs.C08_ContainFileFront Proofs.C02_Stmt4 Proofs.C08_Stmt.
 From RU Require Properties.C02.
 Open Scope N_scope.
 Open Scope list_scope.
@@ -723,6 +723,31 @@ Example C08_inhabited :
   /\ mr_holds "file:///tmp/a" "file:///tmp/b/c/" "b/c/" = true
   /\ mr_holds "http://u:p@h:81/a/f" "http://u:p@h:81/" "../" = true.
 Proof. exact MR_ok_inhabited. Qed.
+
+(* ================= 7b. FINDING: C08_absolute_statement2 is FALSE as stated; the corrected quantifier ================= *)
+(* Reachable2 misses the class F-C07-8 / Known_F_C02_10 (C02_statement_refuted): a://:pw@h/p -> quirks::set_host("")
+   = a://:pw@/p is inside Reachable2, and resolving that text against any base answers Err(EmptyHost) - on the parser
+   model linked with the host model, of which HostOK2 holds.  (Replay on the crate: known finding F-C07-8.) *)
+Theorem C08_absolute_statement2_refuted : ~ C08_absolute_statement2.
+Proof. exact absolute_statement2_refuted. Qed.
+Check C08_absolute_statement2_refuted : ~ (forall dbg hp hpo hd, HostOK2 hp hpo hd ->
+  forall u b, Reachable2 dbg hp hpo hd u -> Reachable2 dbg hp hpo hd b ->
+  parse_url dbg hp hpo hd None (Some b) (utf8_lossy (ser u)) = POk u).
+Print Assumptions C08_absolute_statement2_refuted.
+Theorem C08_absolute_F_C07_8_witness :
+  match parse_url true mhp host_parse_opaque host_display None (Some w10_u0) (utf8_lossy (ser w10_u1)) with
+  | PErr EmptyHost => true | _ => false end = true
+  /\ list_eqb (ser w10_u1) (B "a://:pw@/p") = true.
+Proof. split; [exact w10_join | exact (proj1 (proj2 (proj2 (proj2 (proj2 (proj2 w10_facts))))))]. Qed.
+Print Assumptions C08_absolute_F_C07_8_witness.
+(* the statement over the corrected quantifier of C02_statement4: Reachable4 (every step outside known_step3 =
+   known_step2 + Known_F_C02_10; query_pairs_mut sessions included) with host_nonempty.  NOT proved in full; proved
+   part: C08_absolute_reach (the histories ReachC4, inside Reachable4 by C02_reach_partial4_in_statement);
+   missing: file URLs, joins through the path arms, path_segments_mut sessions on hierarchical records *)
+Definition C08_absolute_statement4 : Prop :=
+  forall dbg hp hpo hd, HostOK2 hp hpo hd -> host_nonempty hp hpo ->
+  forall u b, Reachable4 dbg hp hpo hd u -> Reachable4 dbg hp hpo hd b ->
+  join dbg hp hpo hd b (utf8_lossy (ser u)) = POk u.
 
 (* ================= 4b. containment for file bases, strong form outside the drive-letter branches ================= *)
 (* file_shape b (computable): the record has the layout parse_file gives every file URL - "file://" in front,
